@@ -288,6 +288,61 @@ def check_dimensions(ctx, db):
     ctx.require('R-DIM resolved sites', n, 56)
 
 
+def check_hull_corners(ctx, db):
+    """gdstk::convex_hull only ever reports input points: every value appended to the result is an element of the
+    input array (through a pointer into it, or the whole array) - never a point assembled component by component
+    from different inputs (e.g. the corners of the bounding box)."""
+    f = db.fn('gdstk::convex_hull')
+    ctx.touch(f)
+    src = f.params[0]['n']
+    n = 0
+    for c in f.walk():
+        if c.k != 'CXXMemberCallExpr' or (c.callee or '').split('::')[-1] not in ('append', 'extend', 'append_unsafe') or norm(c.child('obj').text()) != f.params[1]['n']:
+            continue
+        n += 1
+        a = _strip_casts(c.args[0])
+        while a is not None and a.k in ('CXXConstructExpr', 'MaterializeTemporaryExpr', 'CXXBindTemporaryExpr') and len([x for x in a.c if x is not None]) == 1:
+            a = _strip_casts([x for x in a.c if x is not None][0])
+        ok = False
+        why = norm(c.args[0].text())
+        if a.k == 'DeclRefExpr' and a.n == src:
+            ok = True
+        elif a.k == 'UnaryOperator' and a.op == '*' and _strip_casts(a.child('sub')).k == 'DeclRefExpr':
+            pv = _strip_casts(a.child('sub'))
+            key = lvalue_key(pv)
+            defs = [v.child('init') for v in f.walk() if v.k == 'VarDecl' and 'v%d:%s' % (v.d, v.n) == key and v.child('init') is not None]
+            defs += [x.child('rhs') for x in f.walk() if is_assign(x) and x.op == '=' and lvalue_key(x.child('lhs')) == key]
+            into = set()
+            for d in defs:
+                t = norm(d.text())
+                into.add(t)
+            # every definition is a pointer into the input array: `points.items`, or another pointer that is
+            ptrs = {('%s.items' % src)}
+            changed = True
+            names = {}
+            for v in f.walk():
+                if v.k == 'VarDecl' and '*' in (v.t or '') and v.child('init') is not None:
+                    names.setdefault(v.n, set()).add(norm(v.child('init').text()))
+            for x in f.walk():
+                if is_assign(x) and x.op == '=' and _strip_casts(x.child('lhs')).k == 'DeclRefExpr' and '*' in (_strip_casts(x.child('lhs')).t or ''):
+                    names.setdefault(_strip_casts(x.child('lhs')).n, set()).add(norm(x.child('rhs').text()))
+            good = set()
+            while changed:
+                changed = False
+                for nm, ds in names.items():
+                    if nm not in good and all(d in ptrs or d in good for d in ds):
+                        good.add(nm)
+                        changed = True
+            ok = pv.n in good
+        ctx.check(ok, 'R-EFFECT', 'convex_hull/corner@%s' % c.loc(), c.loc(), 'the reported corner is an element of the input array',
+                  'convex_hull reports `%s`, which is not an element of the input (a point assembled from separate coordinate extrema lies outside the input when the points are on a descending line)' % why)
+    ctx.require('R-EFFECT hull corner sources', n, 2)
+    # the qhull branch copies both coordinates of ONE vertex
+    st = [x for x in f.walk() if is_assign(x) and 'qh_vertex->point[' in norm(x.child('rhs').text())]
+    ok = len(st) == 2 and sorted(norm(x.child('rhs').text()) for x in st) == ['qh_vertex->point[0]', 'qh_vertex->point[1]'] and st[0].parent is st[1].parent
+    ctx.check(ok, 'R-EFFECT', 'convex_hull/qhull-vertex', f.loc(), 'each reported vertex takes both coordinates from the same qhull vertex (an input point)')
+
+
 def run(ctx):
     db = ctx.db
     check_aggregates(ctx, db)
@@ -297,6 +352,7 @@ def run(ctx):
     check_init(ctx, db)
     check_extrema_consumers(ctx, db)
     check_dimensions(ctx, db)
+    check_hull_corners(ctx, db)
     from .. import fresh
     nf = 0
     for f in db.fn('gdstk::Cell::convex_hull', all=True):
@@ -306,7 +362,7 @@ def run(ctx):
 
 
 MANIFEST = dict(
-    text='Decides structural necessary conditions of exact boxes/hulls for every hierarchy: both cell aggregators visit all five element arrays and the hull takes every repetition offset; every running-extremum update compares and assigns matching components, keeps one role per accumulator, covers min.x/min.y/max.x/max.y in each loop and feeds minima from min corners and maxima from max corners; every read of a cached hull/box is guarded by the matching valid flag of the same entry or follows recomputation by the matching function, and cache entries are stored under the cell\'s own name with exactly the computed flag; per-axis extreme offsets never feed a convex hull for Explicit repetitions; every box routine establishes the inverted box before any return; cache-less overloads are thin wrappers; the scratch array of repetition offsets is emptied after every repeated element of Cell::convex_hull; the box routines are dimensionally consistent (coordinates only meet coordinates); every consumer of Repetition::get_extrema walks the whole list; the axis-aligned shortcut of Reference::bounding_box is taken only for exact multiples of 90 degrees. Hull correctness (qhull) and numeric extremes are not decided.',
+    text='Decides structural necessary conditions of exact boxes/hulls for every hierarchy: both cell aggregators visit all five element arrays and the hull takes every repetition offset; every running-extremum update compares and assigns matching components, keeps one role per accumulator, covers min.x/min.y/max.x/max.y in each loop and feeds minima from min corners and maxima from max corners; every read of a cached hull/box is guarded by the matching valid flag of the same entry or follows recomputation by the matching function, and cache entries are stored under the cell\'s own name with exactly the computed flag; per-axis extreme offsets never feed a convex hull for Explicit repetitions; gdstk::convex_hull reports only elements of its input (no corner assembled from separate coordinate extrema, also in the collinear fallback); every box routine establishes the inverted box before any return; cache-less overloads are thin wrappers; the scratch array of repetition offsets is emptied after every repeated element of Cell::convex_hull; the box routines are dimensionally consistent (coordinates only meet coordinates); every consumer of Repetition::get_extrema walks the whole list; the axis-aligned shortcut of Reference::bounding_box is taken only for exact multiples of 90 degrees. Hull correctness (qhull) and numeric extremes are not decided.',
     note='Trusted: clang front end, gx, sa rules; Repetition::get_extrema semantics are C11\'s obligations.',
     technique='aggregate-completeness and flag-guard dominance rules over typed AST/CFG + running-extremum idiom algebra + who-may-flow effect rule',
     design='§4 C09')
